@@ -4,7 +4,7 @@ Lemmas about the selection glue of `TmVerif.Model.Listing` (property C16): membe
 -/
 import TmVerif.Proofs.Listing
 
-namespace TmVerif
+namespace TmVerif.Listing
 
 def strDoubleSlash : List Char := ['/', '/']
 
@@ -158,4 +158,54 @@ theorem mem_canonicalSet (env : Env) (text : List Char) (excludes : List (List C
     · rw [hveq]
     · simp only [hc]
 
-end TmVerif
+/-! ## vocabulary of the C16 statements -/
+
+theorem extractInputDevices_nil : extractInputDevices [] = [] := by decide
+theorem extractKeyboards_nil : extractKeyboards [] = [] := by decide
+
+/-- "no pattern of `--exclude` matches the name" -/
+def NotExcluded (env : Env) (excludes : List (List Char)) (name : List Char) : Prop :=
+  ∀ pat ∈ excludes, env.glob pat name = false
+
+/-- The right-hand side of C16: keyboard-like by its own entry, not under the virtual-input tree,
+not excluded by name. -/
+def ShouldSelect (env : Env) (excludes : List (List Char)) (d : DevRec) : Prop :=
+  d.2.2 = true ∧ isVirtual d.1 = false ∧ NotExcluded env excludes d.2.1
+
+/-- The decision of `--dev-file` about one argument, spelled out. -/
+theorem mem_selectNamed_singleton (env : Env) (text : List Char) (excludes : List (List Char))
+    (skip : Bool) (arg c : List Char) (harg : env.canon arg = some c)
+    (hslash : containsSub strDoubleSlash c = false) :
+    arg ∈ selectNamed env text excludes skip [arg] ↔
+      ∃ v, lookupLast c (canonicalSet env text excludes) = some v ∧
+        (skip = true → v.1.2.2 = true) ∧ v.2 = false := by
+  simp only [selectNamed, List.mem_filter, List.mem_singleton, true_and, harg,
+    replaceDoubleSlash_of_no_double c hslash]
+  cases hl : lookupLast c (canonicalSet env text excludes) with
+  | none => simp
+  | some v =>
+    cases skip <;> cases hk : v.1.2.2 <;> cases he : v.2 <;> simp [hk, he]
+
+/-- Arguments are judged one by one. -/
+theorem mem_selectNamed (env : Env) (text : List Char) (excludes : List (List Char)) (skip : Bool)
+    (args : List (List Char)) (a : List Char) :
+    a ∈ selectNamed env text excludes skip args ↔
+      a ∈ args ∧ a ∈ selectNamed env text excludes skip [a] := by
+  simp [selectNamed, List.mem_filter]
+
+/-- The uniqueness hypothesis of `C16_select_named` in executable form (for concrete device lists). -/
+def uniqueCanonCheck (env : Env) (devs : List DevRec) (c : List Char) (d : DevRec) : Bool :=
+  devs.all fun d' =>
+    isVirtual d'.1 || match env.resolve d'.1 with
+      | none => true
+      | some p' => !(env.canon p' == some c) || d' == d
+
+theorem uniqueCanonCheck_sound (env : Env) (devs : List DevRec) (c : List Char) (d : DevRec)
+    (h : uniqueCanonCheck env devs c d = true) :
+    ∀ d' ∈ devs, isVirtual d'.1 = false →
+      ∀ p', env.resolve d'.1 = some p' → env.canon p' = some c → d' = d := by
+  intro d' hd' hv p' hr hc
+  have := List.all_eq_true.mp h d' hd'
+  simpa [hv, hr, hc] using this
+
+end TmVerif.Listing
